@@ -412,7 +412,16 @@ pub async fn record() {
 
     // ---- round trips through the real client
     let chan = Channel::connect(addr);
-    let client = RpcClient::<Echo>::new(chan);
+    // three clients take turns: a plain one, one with a request timeout (far longer than any exchange here), and a clone of that one
+    let plain = RpcClient::<Echo>::new(chan.clone());
+    let mut timed = RpcClient::<Echo>::new(chan);
+    timed.set_timeout(std::time::Duration::from_secs(120));
+    let clients = [plain, timed.clone(), timed];
+    let turn = std::cell::Cell::new(0usize);
+    let next_client = || {
+        turn.set(turn.get() + 1);
+        &clients[turn.get() % 3]
+    };
     let mut rt = 0u64;
     let big = if thorough { 4 << 20 } else { 256 << 10 };
     let mut rts: Vec<WithVec> = vecs.clone();
@@ -422,7 +431,7 @@ pub async fn record() {
     }
     for v in &rts {
         let before = runs.load(Ordering::SeqCst);
-        let r = client.send(v).await;
+        let r = next_client().send(v).await;
         let after = runs.load(Ordering::SeqCst);
         let (ok, same) = match &r {
             Ok(view) => (true, view.deserialize_view().map(|b: WithVec| b == *v).unwrap_or(false)),
@@ -433,14 +442,14 @@ pub async fn record() {
                                  "handlerRuns": after - before})).unwrap();
     }
     for v in nested.iter() {
-        let r = client.send(v).await;
+        let r = next_client().send(v).await;
         let same = matches!(&r, Ok(view) if view.deserialize_view().map(|b: Nested| b == *v).unwrap_or(false));
         rt += 1;
         writeln!(f, "{}", json!({"ev": "roundtrip", "type": "Nested", "sent": digest(v.name.as_bytes()), "ok": r.is_ok(),
                                  "replyEqualsSent": same, "handlerRuns": 1})).unwrap();
     }
     for v in fixed.iter() {
-        let r = client.send(v).await;
+        let r = next_client().send(v).await;
         let same = matches!(&r, Ok(view) if view.deserialize_view().map(|b: Fixed| b == *v).unwrap_or(false));
         rt += 1;
         writeln!(f, "{}", json!({"ev": "roundtrip", "type": "Fixed", "sent": digest(&v.c), "ok": r.is_ok(),
@@ -450,7 +459,7 @@ pub async fn record() {
         ($t:ty, $name:expr, $vals:expr) => {
             for v in $vals.iter() {
                 let before = runs.load(Ordering::SeqCst);
-                let r = client.send(v).await;
+                let r = next_client().send(v).await;
                 let after = runs.load(Ordering::SeqCst);
                 let same = matches!(&r, Ok(view) if view.deserialize_view().map(|b: $t| b == *v).unwrap_or(false));
                 rt += 1;
@@ -472,7 +481,7 @@ pub async fn record() {
         let i = i as u64;
         let id = (1u64 << 63) + i + (rng.gen::<u32>() as u64) * 5;
         let v = WithVec { id, data: vec![0; size] };
-        let r = client.send(&v).await;
+        let r = next_client().send(&v).await;
         let (got_code, got_msg) = match r {
             Err(s) => (format!("{:?}", s.code), s.message),
             Ok(_) => ("none".into(), String::new()),
